@@ -41,7 +41,7 @@ EosClauses(c, e) ==
     [] row.eos = "gamma"    -> EosGamma(c.par, e.v, t)
     [] row.eos = "gamma2"   -> EosGamma(ParSide(c, e.reg), e.v, t)
     [] row.eos = "cog"      -> EosCog(c.par, e.v, t)
-    [] row.eos = "additive" -> EosAdditive(e.bal, TolOf(c).bal)
+    [] row.eos = "additive" -> IF Has(e.bal, "eos") THEN EosAdditive(e.bal, TolOf(c).bal) ELSE {}
     [] OTHER -> {}
 
 PdeNames(c) == DOMAIN TermCount[RowOf(c).pde]
